@@ -196,6 +196,11 @@ def gen_program(rnd, size=None, pseudo=True, data=True, aligns=True, transfers=T
         if k < 0.42:
             name, ops = gen_instr(rnd)
             body.append(Ln(line_text(rnd, name, ops), 'instr', name, ops))
+            if name == 'auipc' and rnd.random() < 0.5:
+                # a hand-written pair: the jalr behind an auipc is an ordinary instruction (c.jr / c.jalr when its offset is 0)
+                rs = ops[0][1] or 5
+                jops = [('r', rnd.choice([0, 1])), ('r', rs), ('i', rnd.choice([0, 0, 0, 4, -8]))]
+                body.append(Ln(line_text(rnd, 'jalr', jops), 'instr', 'jalr', jops))
         elif k < 0.58 and transfers:
             t = rnd.random()
             L = rnd.choice(labels)
